@@ -5,6 +5,7 @@ import (
 	"encoding/xml"
 	"fmt"
 	"net/url"
+	"regexp"
 	"sort"
 	"strconv"
 	"strings"
@@ -404,6 +405,16 @@ func (r *Run) opHostile(op *Op) {
 			r.fail("frame.others", fmt.Sprintf("a refused %s on a %s key changes the bucket's delimited listing %s", op.Sub, keyClass(op.Key), r.bctx()), bb.Grouped, ba.Grouped)
 		}
 	}
+	if !resp.OK() && (op.Sub == "put" || op.Sub == "copy") && r.me().faulted && r.Plan.Config.IsFS() {
+		// refused after a (one-shot) disk error: the previous object of the key
+		// may be gone with its directories, but no directory is left behind
+		// that holds no key
+		if ba := after.Buckets[op.B]; ba != nil {
+			if ph := phantomPrefixes(ba); len(ph) > 0 {
+				r.fail("frame.others", fmt.Sprintf("a %s on a %s key refused after a disk error leaves a directory without keys behind %s", op.Sub, keyClass(op.Key), r.bctx()), "no CommonPrefix without a key below it", fmt.Sprintf("%q in %s", ph, ba.Grouped))
+			}
+		}
+	}
 	if treeBefore != nil && r.Plan.Config.Backend == "multifs" && !isInternalName(r.Plan.Config, op.B) {
 		treeAfter := r.Env.SimFS.Dump()
 		allowed := []string{"/data/buckets/" + op.B + "/", "/data/metadata/" + op.B + "/", "/data/buckets/" + op.B, "/data/metadata/" + op.B}
@@ -522,4 +533,33 @@ func keyClass(k string) string {
 		return "internal-name"
 	}
 	return "plain-or-prefix"
+}
+
+var quotedRe = regexp.MustCompile(`"((?:[^"\\\\]|\\\\.)*)"`)
+
+// phantomPrefixes returns the CommonPrefixes of a bucket's "/"-delimited
+// listing under which the undelimited listing shows no key.
+func phantomPrefixes(bs *bucketSnap) []string {
+	i := strings.Index(bs.Grouped, "| prefixes:")
+	if i < 0 {
+		return nil
+	}
+	var out []string
+	for _, m := range quotedRe.FindAllString(bs.Grouped[i:], -1) {
+		p, err := strconv.Unquote(m)
+		if err != nil {
+			continue
+		}
+		found := false
+		for _, l := range bs.Listing {
+			if strings.HasPrefix(l, p) {
+				found = true
+				break
+			}
+		}
+		if !found {
+			out = append(out, p)
+		}
+	}
+	return out
 }
